@@ -73,13 +73,15 @@ type qObs struct {
 }
 
 type qCase struct {
-	Queue string `json:"queue"` // poll | packet
-	NC    int    `json:"nc"`
-	Cfg   string `json:"cfg"`
-	Ops   []qOp  `json:"ops"`
-	Obs   []qObs `json:"obs"`
-	Err   string `json:"err,omitempty"`
-	Cap   int    `json:"cap"` // capacity of ready
+	Queue string  `json:"queue"` // poll | packet
+	NC    int     `json:"nc"`
+	Cfg   string  `json:"cfg"`
+	Ops   []qOp   `json:"ops"`
+	Obs   []qObs  `json:"obs"`
+	Err   string  `json:"err,omitempty"`
+	Cap   int     `json:"cap"`             // capacity of ready
+	Progs [][]int `json:"progs,omitempty"` // park rig: event ids per emitter
+	Recv  []int   `json:"recv,omitempty"`  // park rig: ids the server received, in order
 }
 
 const (
@@ -271,7 +273,7 @@ func newQRunner(ut qUnderTest, nc int) *qRunner {
 	for i := 0; i < nc; i++ {
 		r.cons = append(r.cons, &qThread{idx: i, release: make(chan struct{}), last: qCons{St: "idle", P: []int{}}})
 	}
-	r.closer = &qThread{idx: -1}
+	r.closer = &qThread{idx: -1, release: make(chan struct{})}
 	return r
 }
 
@@ -426,6 +428,9 @@ func (r *qRunner) apply(op qOp) {
 	case "N", "U":
 		r.applySwap(op)
 		return
+	case "E", "C", "F":
+		r.applyPark(op)
+		return
 	case "S":
 		th := r.cons[op.C]
 		if th.state != tIdle && th.state != tDone {
@@ -515,8 +520,27 @@ func (r *qRunner) cleanup() error {
 
 func runQCase(queue string, nc int, cfg string, ops []qOp) qCase {
 	var ut qUnderTest
+	parkTotal := 0
 	c := qCase{Queue: queue, NC: nc, Cfg: cfg}
-	if queue == "swap" {
+	if queue == "park" {
+		progs := make([][]int, nc)
+		total := 0
+		for _, op := range ops {
+			if op.K == "E" {
+				progs[op.C] = append(progs[op.C], (op.C+1)*10+len(progs[op.C]))
+				total++
+			}
+		}
+		c.Progs = progs
+		pu, err := newParkUT(progs)
+		if err != nil {
+			c.Err = err.Error()
+			return c
+		}
+		defer pu.close()
+		parkTotal = total
+		ut = pu
+	} else if queue == "swap" {
 		sw := newSwapUT()
 		defer sw.sock.Close()
 		ut = sw
@@ -531,6 +555,9 @@ func runQCase(queue string, nc int, cfg string, ops []qOp) qCase {
 	r := newQRunner(ut, nc)
 	if sw, ok := ut.(*swapUT); ok {
 		sw.r = r
+	}
+	if pu, ok := ut.(*parkUT); ok {
+		pu.r = r
 	}
 	qCurrent.mu.Lock()
 	qCurrent.r = r
@@ -569,6 +596,12 @@ func runQCase(queue string, nc int, cfg string, ops []qOp) qCase {
 		}
 		if !any {
 			break
+		}
+	}
+	if pu, ok := ut.(*parkUT); ok && c.Err == "" {
+		c.Recv = pu.finishPark(parkTotal)
+		if !pu.hookSeen {
+			c.Err = "the mutex hook never fired: harness not built with -tags sio_deadlock"
 		}
 	}
 	if err := r.cleanup(); err != nil {
@@ -653,6 +686,9 @@ type qConfig struct {
 func qConfigs(queue string, thorough bool) []qConfig {
 	if queue == "swap" {
 		return swapConfigs(thorough)
+	}
+	if queue == "park" {
+		return parkConfigs(thorough)
 	}
 	var cfgs []qConfig
 	prods := func(n int, double bool) []qProg {
@@ -867,7 +903,6 @@ func runQLive(kind string, n int) qLive {
 	return res
 }
 
-
 // ---------------------------------------------------------------- stress (real preemption, no hooks)
 
 type qStress struct {
@@ -875,10 +910,10 @@ type qStress struct {
 	NC    int     `json:"nc"`
 	NP    int     `json:"np"`
 	K     int     `json:"k"`
-	Got   [][]int `json:"got"`  // per consumer: ids in the order its polls returned them
-	Ms    float64 `json:"ms"`   // time from the last add returning to the last packet being returned
+	Got   [][]int `json:"got"`   // per consumer: ids in the order its polls returned them
+	Ms    float64 `json:"ms"`    // time from the last add returning to the last packet being returned
 	Stuck bool    `json:"stuck"` // not everything was returned within the deadline
-	QLen  int     `json:"qlen"` // queue length when the run was declared stuck / finished
+	QLen  int     `json:"qlen"`  // queue length when the run was declared stuck / finished
 }
 
 // runQStress: np producers add k packets each (ids p*1000+i) with random yields; nc consumers poll in
@@ -989,7 +1024,7 @@ func queuesMain(args []string) error {
 	fs := flag.NewFlagSet("queues", flag.ExitOnError)
 	seed := fs.Uint64("seed", 1, "")
 	mode := fs.String("mode", "forced", "forced|live|stress|count")
-	queue := fs.String("queue", "poll", "poll|packet|swap")
+	queue := fs.String("queue", "poll", "poll|packet|swap|park")
 	tier := fs.String("tier", "quick", "quick|thorough")
 	n := fs.Int("n", 3, "live: number of runs per kind")
 	only := fs.String("only", "", "forced: run only this JSON op list (replay), with -nc")
